@@ -76,7 +76,11 @@ class Check:
             if node is not None and not expr:
                 if isinstance(node, (ast.If, ast.While)):
                     expr = 'if ' + norm(node.test)
-        self.obs.append(Obligation(rule, construct, where, expr[:300], kind or rule, bool(ok), why))
+        if isinstance(func_or_construct, FuncInfo) and node is not None:
+            sp = structural_path(func_or_construct, node)
+            if sp:
+                expr = f'{expr[:300]} @ {sp}'
+        self.obs.append(Obligation(rule, construct, where, expr[:600], kind or rule, bool(ok), why))
         return bool(ok)
 
     def info(self, rule: str, what: str, **extra: Any) -> None:
@@ -185,6 +189,69 @@ class Check:
         os.makedirs(os.path.join(VERIF, 'evidence'), exist_ok=True)
         with open(os.path.join(VERIF, 'evidence', f'{self.pid}.json'), 'w') as fh:
             json.dump(ev, fh, indent=1, default=str)
+
+
+def structural_path(func: FuncInfo, node: ast.AST) -> str:
+    """Position of ``node`` inside ``func`` as the chain of enclosing compound statements (no line numbers):
+    ``try>except Interruption>if self._interrupt_action is not None>else``.  Distinguishes textually identical
+    statements in different branches, so a known finding names one construct only."""
+    target = node
+
+    def search(stmts, trail):
+        for s in stmts:
+            r = visit(s, trail)
+            if r is not None:
+                return r
+        return None
+
+    def contains_expr(s) -> bool:
+        return any(x is target for x in ast.walk(s))
+
+    def visit(s, trail):
+        if s is target:
+            return trail
+        if isinstance(s, (ast.FunctionDef, ast.AsyncFunctionDef, ast.ClassDef)):
+            return None
+        if isinstance(s, ast.If):
+            if any(x is target for x in ast.walk(s.test)):
+                return trail
+            r = search(s.body, trail + ['if ' + norm(s.test)])
+            if r is not None:
+                return r
+            return search(s.orelse, trail + ['else of if ' + norm(s.test)])
+        if isinstance(s, (ast.For, ast.AsyncFor, ast.While)):
+            head = 'for ' + norm(s.target) if not isinstance(s, ast.While) else 'while ' + norm(s.test)
+            hexpr = s.iter if not isinstance(s, ast.While) else s.test
+            if any(x is target for x in ast.walk(hexpr)):
+                return trail
+            r = search(s.body, trail + [head])
+            if r is not None:
+                return r
+            return search(s.orelse, trail + [head + ' else'])
+        if isinstance(s, (ast.With, ast.AsyncWith)):
+            for it in s.items:
+                if any(x is target for x in ast.walk(it.context_expr)):
+                    return trail
+            return search(s.body, trail + ['with ' + ', '.join(norm(i.context_expr) for i in s.items)])
+        if isinstance(s, ast.Try):
+            r = search(s.body, trail + ['try'])
+            if r is not None:
+                return r
+            for h in s.handlers:
+                r = search(h.body, trail + ['except ' + (norm(h.type) if h.type is not None else '')])
+                if r is not None:
+                    return r
+            r = search(s.orelse, trail + ['try-else'])
+            if r is not None:
+                return r
+            return search(s.finalbody, trail + ['finally'])
+        if contains_expr(s):
+            return trail
+        return None
+
+    body = func.body
+    r = search(body, [])
+    return '>'.join(r) if r else ''
 
 
 def load_known() -> Dict[str, Any]:
